@@ -446,10 +446,17 @@ func validateMessage(msgAtt, serviceAtt *AttributeExpr, e *GRPCEndpointExpr, req
 func validateRPCTags(fields *Object, e *GRPCEndpointExpr) *eval.ValidationErrors {
 	verr := new(eval.ValidationErrors)
 	foundRPC := make(map[uint64]string)
+	// the alternatives of a union become fields of the enclosing message: they
+	// share its field numbers
+	var nats []*NamedAttributeExpr
 	for _, nat := range *fields {
-		if IsUnion(nat.Attribute.Type) {
+		if u := AsUnion(nat.Attribute.Type); u != nil {
+			nats = append(nats, u.Values...)
 			continue
 		}
+		nats = append(nats, nat)
+	}
+	for _, nat := range nats {
 		tag, ok := nat.Attribute.FieldTag()
 		if !ok {
 			verr.Add(e, "attribute %q does not have \"rpc:tag\" defined in the meta, use \"Field\" to define the attribute of a type used in a gRPC method", nat.Name)
